@@ -871,6 +871,13 @@ pub fn parent_main(args: &Args) -> ! {
     ev.extra.insert("child_endings".into(), json!(statuses));
     ev.extra.insert("leftover_temp_files".into(), json!(leftover));
     ev.extra.insert("workers".into(), json!(n));
+    if let Ok(path) = std::env::var("VERIF_C09T_SUMMARY") {
+        if let Ok(text) = std::fs::read_to_string(&path) {
+            if let Ok(v) = serde_json::from_str::<Value>(&text) {
+                ev.extra.insert("t_flavour_pass".into(), v);
+            }
+        }
+    }
     ev.extra.insert("run_digest".into(), json!(run_digest));
     ev.extra.insert(
         "real_vs_stub".into(),
